@@ -192,13 +192,19 @@ def desc(tag, payload, pad=0):
     return bytes([tag]) + ln + payload
 
 
-def esds(aot=2, freq_index=3, chan=2, bitrate=128000, pad=0):
-    if aot < 31:
-        asc_bits = (aot << 11) | (freq_index << 7) | (chan << 3)
-        asc = asc_bits.to_bytes(2, "big")
-    else:
-        v = (31 << 19) | ((aot - 32) << 13) | (freq_index << 9) | (chan << 5)
-        asc = v.to_bytes(3, "big")
+def esds(aot=2, freq_index=3, chan=2, bitrate=128000, pad=0, explicit_freq=48000):
+    # AudioSpecificConfig (14496-3 1.6.2.1): audioObjectType 5 bits (31 = escape: + 6 bits), samplingFrequencyIndex 4 bits
+    # (15 = escape: + 24 bits samplingFrequency), channelConfiguration 4 bits; padded with zero bits to a byte boundary
+    bits = ""
+    bits += format(aot, "05b") if aot < 31 else "11111" + format(aot - 32, "06b")
+    bits += format(freq_index, "04b")
+    if freq_index == 15:
+        bits += format(explicit_freq, "024b")
+    bits += format(chan, "04b")
+    bits += "0" * (-len(bits) % 8)
+    if aot < 31 and freq_index != 15:
+        bits = bits[:16]
+    asc = int(bits, 2).to_bytes(len(bits) // 8, "big")
     dsi = desc(5, asc, pad)
     dcd = desc(4, bytes([0x40, 0x15]) + (0).to_bytes(3, "big") + bitrate.to_bytes(4, "big") + bitrate.to_bytes(4, "big") + dsi, pad)
     slc = desc(6, b"\x02", pad)
@@ -326,7 +332,7 @@ def make_tables(tr, offsets):
     return tb
 
 
-def build_movie(tracks, layout="moov_first", movie_ts=1000, extra_top=(), udta=None, mvex=None, base=0, large_mdat=False, moov_extra=()):
+def build_movie(tracks, layout="moov_first", movie_ts=1000, extra_top=(), udta=None, mvex=None, base=0, large_mdat=False, moov_extra=(), lead=()):
     """returns (Rendered, tracks with 'tables' and 'offsets' filled in, mdat payload offset)"""
     # chunk order: round robin over tracks
     order = []
@@ -372,16 +378,17 @@ def build_movie(tracks, layout="moov_first", movie_ts=1000, extra_top=(), udta=N
     f = ftyp()
     offs0, payload = assemble(0)
     moov0 = moov_for(offs0)
-    head = render([f] + list(extra_top))
+    # lead: boxes in FRONT of ftyp (e.g. the 12-byte signature box of JPEG 2000 family files, or a free box): the reader accepts any order
+    head = render(list(lead) + [f] + list(extra_top))
     if layout == "moov_first":
         moov_len = len(render([moov0]).data)
         pstart = base + len(head.data) + moov_len + (16 if large_mdat else 8)
         offs, payload = assemble(pstart)
-        nodes = [f] + list(extra_top) + [moov_for(offs), Box("mdat", [Raw(payload)], large=large_mdat)]
+        nodes = list(lead) + [f] + list(extra_top) + [moov_for(offs), Box("mdat", [Raw(payload)], large=large_mdat)]
     else:
         pstart = base + len(head.data) + (16 if large_mdat else 8)
         offs, payload = assemble(pstart)
-        nodes = [f] + list(extra_top) + [Box("mdat", [Raw(payload)], large=large_mdat), moov_for(offs)]
+        nodes = list(lead) + [f] + list(extra_top) + [Box("mdat", [Raw(payload)], large=large_mdat), moov_for(offs)]
     for t, o in zip(tracks, offs):
         t["offsets"] = o
     return render(nodes, base), tracks, nodes
@@ -523,7 +530,7 @@ def udta(children):
 
 
 # ---------------------------------------------------------------- fragmented movies
-def build_fragmented(tracks, fragments, movie_ts=1000, trex_dur=0, extra_between=(), large_moof=False, trex_durs=None):
+def build_fragmented(tracks, fragments, movie_ts=1000, trex_dur=0, extra_between=(), large_moof=False, trex_durs=None, moof_transform=None):
     """tracks: [{"id", "kind", "ts"}]; fragments: [[traf, ...], ...] with
          traf = {"track_id", "base": "moof" | "explicit" | "explicit_end", "tfhd_dur": None|int, "tfdt": None|int, "tfdt_v": 0|1,
                  "durations": None|[..], "sizes": [..], "cts": None|[..], "with_offset": bool, "trun": bool}
@@ -549,7 +556,7 @@ def build_fragmented(tracks, fragments, movie_ts=1000, trex_dur=0, extra_between
             media += bytes(render([x]).data)
         moof_off = len(media)
 
-        def make(offsets, bases, frag=frag, seq=seq):
+        def make(offsets, bases, frag=frag, seq=seq, fi=fi):
             trafs = []
             for ti, tf in enumerate(frag):
                 kids = [tfhd(tf["track_id"], bases[ti] if tf.get("base", "moof") != "moof" else None, None, tf.get("tfhd_dur"),
@@ -562,7 +569,10 @@ def build_fragmented(tracks, fragments, movie_ts=1000, trex_dur=0, extra_between
                 if tf.get("trun", True):
                     kids.append(trun(len(tf["sizes"]), offsets[ti] if tf.get("with_offset", True) else None, None, tf.get("durations"), tf["sizes"], None, tf.get("cts")))
                 trafs.append(Box("traf", kids))
-            return Box("moof", [mfhd(seq)] + trafs, large=large_moof)
+            mb = Box("moof", [mfhd(seq)] + trafs, large=large_moof)
+            # moof_transform(box, fragment index): a layout variant of the movie fragment box; it must be a function of its arguments
+            # (it is applied once to measure the box and once to render it)
+            return moof_transform(mb, fi) if moof_transform else mb
         moof0 = make([0] * len(frag), [0] * len(frag))
         moof_len = len(render([moof0]).data)
         payload_start = moof_off + moof_len + 8
